@@ -111,15 +111,17 @@ class Machine:
         self.events = []
         self.stack = []
         self.visited = set()
+        self.gen_stack = []
 
     # ------------------------------------------------------------------ running
-    def run(self, g, args):
+    def run(self, g, args, generics=None):
         if self.budget <= 0:
             raise Loop("evaluation budget exhausted")
         self.budget -= 1
         if len(self.stack) > 24:
             raise Loop("call depth")
         self.stack.append(g.name)
+        self.gen_stack.append(generics or [])
         self.visited.add(g.name)
         try:
             env = {i + 1: v for i, v in enumerate(args)}
@@ -132,6 +134,7 @@ class Machine:
             return env2.get(0, UNKNOWN)
         finally:
             self.stack.pop()
+            self.gen_stack.pop()
             if not self.stack:
                 absint.POINTERS = False
 
@@ -161,12 +164,25 @@ class Machine:
             r = self.intercept(self, c, a, tt, g)
             if r is not NOT:
                 return r
+        if c.endswith("String::push") or c.endswith("String::push_str") or c.endswith("String::insert") or c.endswith("String::insert_str"):
+            tgt, cur = raw[0], a[0]
+            if isinstance(tgt, absint.Ptr) and isinstance(cur, str):
+                piece = a[-1]
+                piece = chr(piece) if isinstance(piece, int) and not isinstance(piece, bool) else piece
+                if isinstance(piece, str):
+                    if "insert" in c.rsplit("::", 1)[-1]:
+                        i = a[1] if isinstance(a[1], int) else 0
+                        tgt.set(cur[:i] + piece + cur[i:])
+                    else:
+                        tgt.set(cur + piece)
+                    return []
+            return UNKNOWN
         r = self._model(c, a, tt, g)
         if r is not NOT:
             return r
         h = self.fb.by_path(c, self.crate) if c else None
         if h is not None and self.inline(c):
-            return self.run(h, raw)
+            return self.run(h, raw, generics=(tt.get("fn") or {}).get("generics"))
         if tt.get("fn") is None and a:                      # call through a fn pointer / closure value held in a local
             fv = absint.operand(env, tt["func"]) if isinstance(tt.get("func"), dict) else UNKNOWN
             if isinstance(fv, (Closure, FnItem)):
@@ -323,6 +339,10 @@ class Machine:
         if end == "into_iter" and ("IntoIterator" in c):
             if isinstance(a0, Iter):
                 return a0
+            if isinstance(a0, Enum) and getattr(a0, "name", None) in ("Range", "RangeInclusive") and len(a0.fields) >= 2 \
+                    and all(isinstance(x, int) and not isinstance(x, bool) for x in a0.fields[:2]) and abs(a0.fields[1] - a0.fields[0]) < 64:
+                hi = a0.fields[1] + (1 if a0.name == "RangeInclusive" else 0)
+                return Iter(range(a0.fields[0], hi))
             if isinstance(a0, Map):
                 return Iter([[k, v] for k, v in a0.d.values()])
             if isinstance(a0, list):
